@@ -323,6 +323,22 @@ ADDENDA4 = {
     "C20": " Round 4: a module's syntax fault must carry the module's name and line whatever class of error reports it.",
 }
 
+ADDENDA5 = {
+    "C01": " Round 5: a REPL that asks for more input on a buffer the real parser has decided (a syntax error other than 'Unexpected end of input', or a program) is a violation.",
+    "C03": " Round 5: family a4 - pipelines into own and inherited members of an object.",
+    "C06": " Round 5: values made by natives from texts the host's readers turn into nan / inf must be equal to themselves.",
+    "C08": " Round 5: strings outside the Unicode normal forms.",
+    "C10": " Round 5: Session_world.cfg (module files appear, vanish and change between commands, the module path grows: MissingOnlyIfAbsent, WorldTouchesNoInterpreter; Session_pinnedworld.cfg must give a counterexample), Session_base.cfg (a non-secure and a secure interpreter, base-level functions reassigned, bundled modules per interpreter: BaseIsOwn).",
+    "C11": " Round 5: command envreq - require from a caller-supplied environment; LoadOnce / SingleInstance / ModuleScopeIsBase over session and caller-environment importers (Modules_env.cfg, Modules_envwide.cfg).",
+    "C12": " Round 5: collections as members and keys of collections (a twin built in the reverse order beside every set and map: Order!OneMember), enumeration of names (sites names.module / names.import / names.ls / names.object).",
+    "C13": " Round 5: callbacks that shrink, clear or grow the collection a native walks; every function as the _str_ member of an object; names of defaults shadowed by non-functions; ckl.run.main() and ckl.repl.main() driven with scripts whose results and error values cannot be rendered; host streams of their own per case.",
+    "C14": " Round 5: an int beyond the host's one-piece conversion limit in every spelling; Latin-1 strings with every character as an escape.",
+    "C15": " Round 5: a slice or sublist is a new list also when it covers the whole list (edit one, read the other).",
+    "C18": " Round 5: PadNum (zero padding of negative numbers), the start parameter of s, placeholders naming variables of the caller, one-pass ReplaceScan / SplitScan checked against ReplaceAll / SplitLit and driven with hundreds of occurrences.",
+    "C19": " Round 5: flatten over members of every kind; sums of ints beyond 2^53 and decimals whose exact value is a double (exact-rational oracle).",
+    "C20": " Round 5: module faults under every import form (the error names the module, not the importer's alias).",
+}
+
 
 def main():
     checks = []
@@ -331,7 +347,7 @@ def main():
         if pid not in CHECKS:
             continue
         mods, tech, text, note, ref = CHECKS[pid]
-        text = text + ADDENDA.get(pid, "") + ADDENDA3.get(pid, "") + ADDENDA4.get(pid, "")
+        text = text + ADDENDA.get(pid, "") + ADDENDA3.get(pid, "") + ADDENDA4.get(pid, "") + ADDENDA5.get(pid, "")
         if pid == "C03":
             mods = mods + ["Env_Trace.tla"]
             text = text + C03_EXTRA
